@@ -2,6 +2,8 @@ package ref
 
 import (
 	"fmt"
+	"math"
+	"math/big"
 	"strconv"
 	"strings"
 )
@@ -426,7 +428,7 @@ func (p *parser) indexOrSlice() (*Node, error) {
 		if err := p.match(TRbracket); err != nil {
 			return nil, err
 		}
-		return &Node{T: "Index", I: n.Num.Int64()}, nil
+		return &Node{T: "Index", I: satInt64(n.Num)}, nil
 	}
 	var parts [3]*int64
 	idx := 0
@@ -442,7 +444,7 @@ func (p *parser) indexOrSlice() (*Node, error) {
 			if parts[idx] != nil {
 				return nil, p.errf("two numbers without a colon in slice")
 			}
-			v := p.toks[p.i].Num.Int64()
+			v := satInt64(p.toks[p.i].Num)
 			parts[idx] = &v
 			p.i++
 		default:
@@ -568,4 +570,17 @@ func DumpLiteral(v interface{}) string {
 		return "<unmarshalable>"
 	}
 	return string(b)
+}
+
+// satInt64: the grammar puts no bound on integers; one beyond int64 means the same as the nearest
+// int64 in every position an integer can take (index: out of range for any array; slice bound:
+// clamped to the end; step: at most the first element is reached).
+func satInt64(n *big.Int) int64 {
+	if n.IsInt64() {
+		return n.Int64()
+	}
+	if n.Sign() < 0 {
+		return math.MinInt64
+	}
+	return math.MaxInt64
 }
